@@ -1,6 +1,6 @@
 (* C15 -- PatProofs.v : lemmas about the StringMatcher model (Pat/Translate.v, Pat/Ere.v). *)
-From Coq Require Import List NArith Bool Lia.
-From Muscle Require Import Gen.Consts Pat.Ere Pat.Translate.
+From Coq Require Import List Arith NArith Bool Lia.
+From Muscle Require Import Gen.Consts Pat.Ere Pat.EreProofs Pat.Translate Pat.Simple Pat.TranslateProofs Pat.DenoteProofs.
 Import ListNotations.
 Local Open Scope N_scope.
 
@@ -33,3 +33,133 @@ Proof.
       try (split; reflexivity);
       destruct (engine (c0 :: cs)); split; reflexivity.
 Qed.
+
+(* ------------------------------------------------------------------ what Match answers, in terms of the regex string *)
+
+Lemma matches_simple_regex : forall engine st0 p re s,
+  regex_string p true = Some re ->
+  matches (fst (set_pattern engine st0 p true)) s =
+  xorb (fst (strip_negate p)) (match engine re with RxOk m => m s | RxErr => false end).
+Proof.
+  intros engine [p0 v0 n0 m0 s0 u0 r0 x0] p re s H.
+  unfold regex_string in H. unfold set_pattern.
+  destruct (can_match_multiple p) as [multi only].
+  destruct (strip_negate p) as [neg str]. cbn [fst snd] in *.
+  destruct (simple_body str) as [[ranges rp] str'].
+  destruct ranges as [|r1 rs]; cbn [is_nil] in H; [|discriminate].
+  destruct rp as [|c0 cs]; cbn [is_nil] in H.
+  - destruct str' as [|d0 ds]; cbn [is_nil] in H; [discriminate|]. inversion H; subst re; clear H.
+    destruct v0;
+      cbv [free_regex set_uvlist set_regex set_ranges set_negate set_multi set_pat fst snd is_nil
+           s_pattern s_valid s_negate s_multi s_simple s_uvlist s_ranges s_regexp app];
+      destruct (engine (d0 :: ds)); cbv [matches match_raw is_nil s_negate s_ranges s_valid s_regexp fst];
+      destruct neg; rewrite ?xorb_false_l, ?xorb_true_l; reflexivity.
+  - inversion H; subst re; clear H.
+    destruct v0;
+      cbv [free_regex set_uvlist set_regex set_ranges set_negate set_multi set_pat fst snd is_nil
+           s_pattern s_valid s_negate s_multi s_simple s_uvlist s_ranges s_regexp app];
+      destruct (engine (c0 :: cs)); cbv [matches match_raw is_nil s_negate s_ranges s_valid s_regexp fst];
+      destruct neg; rewrite ?xorb_false_l, ?xorb_true_l; reflexivity.
+Qed.
+
+(* ------------------------------------------------------------------ the wildcard form: translate_correct *)
+
+Lemma tbl_skip_seconds :
+  c_sp_skip_escape_first = 92 /\
+  forallb (fun b => tr_plain b && negb (mem b c_sp_escaped_prefix_for)) c_sp_skip_escape_seconds = true.
+Proof. vm_compute. split; reflexivity. Qed.
+
+(* on the repaired translation the special case for a leading "\<" changes nothing: the
+   backslash would not have reached the regex anyway *)
+Lemma skip_noop : forall str, tr_loop (skip_escaped_first str) false = tr_loop str false.
+Proof.
+  intros str. unfold skip_escaped_first.
+  destruct str as [|a [|b t]]; try reflexivity.
+  destruct ((a =? c_sp_skip_escape_first) && mem b c_sp_skip_escape_seconds) eqn:E; [|reflexivity].
+  apply andb_true_iff in E as [Ea Eb]. destruct tbl_skip_seconds as [T1 T2].
+  rewrite T1 in Ea. apply N.eqb_eq in Ea. subst a.
+  apply mem_In in Eb. rewrite forallb_forall in T2. apply T2 in Eb.
+  apply andb_true_iff in Eb as [Hp Hn]. apply negb_true_iff in Hn.
+  change (92 :: b :: t) with (ch_bsl :: b :: t). rewrite tr_loop_esc. unfold tr_esc. rewrite Hn.
+  cbn [tr_loop app]. unfold tr_plain in Hp. destruct (action_of b); try discriminate. reflexivity.
+Qed.
+
+Definition wrap (r : ere) : ere := ECat (ECat EBol (EGroup r)) EEol.
+
+Lemma compile_wrapped : forall al,
+  wf_alt al = true ->
+  ere_compile (c_sp_regex_prefix ++ rx_alt al ++ c_sp_regex_suffix) = COk (wrap (close_frame (fr_alt al f0))).
+Proof.
+  intros al H. destruct tbl_wrap as [Tp Ts]. rewrite Tp, Ts. unfold ere_compile.
+  transitivity (match psteps (rx_alt al ++ [41; 36]) (pnorm [push_anchor f0 EBol] f0) with
+                | SOk st => pfinish st | SErr => CErr | SUnsup => CUnsupported end); [reflexivity|].
+  destruct parse_syntax as (_ & _ & P). rewrite P by exact H. reflexivity.
+Qed.
+
+Lemma head_ok_strip : forall p, head_ok p = true -> strip_negate p = (false, p).
+Proof.
+  intros [|c t] H; [reflexivity|]. unfold strip_negate.
+  replace c_sp_negate_char with ch_tilde by (vm_compute; reflexivity).
+  cbn [head_ok] in H. apply negb_true_iff in H. apply orb_false_iff in H as [H _].
+  apply orb_false_iff in H as [H _]. rewrite H. reflexivity.
+Qed.
+
+Lemma head_ok_body : forall p, head_ok p = true -> simple_body p = ([], regex_of_simple p, p).
+Proof.
+  intros [|c t] H; [reflexivity|]. unfold simple_body.
+  replace c_sp_rawregex_char with ch_backtick by (vm_compute; reflexivity).
+  replace c_sp_range_open with ch_lt by (vm_compute; reflexivity).
+  cbn [head_ok] in H. apply negb_true_iff in H. apply orb_false_iff in H as [H H3].
+  apply orb_false_iff in H as [_ H2]. rewrite H2, H3. reflexivity.
+Qed.
+
+Lemma regex_of_simple_nonnil : forall p, is_nil (regex_of_simple p) = false.
+Proof. intros p. unfold regex_of_simple. destruct tbl_wrap as [Tp _]. rewrite Tp. reflexivity. Qed.
+
+Lemma regex_string_pattern : forall neg al,
+  wf_pattern al = true ->
+  regex_string (print_pattern neg al) true =
+    Some (c_sp_regex_prefix ++ rx_alt al ++ c_sp_regex_suffix) /\
+  fst (strip_negate (print_pattern neg al)) = neg.
+Proof.
+  intros neg al H. unfold wf_pattern in H. apply andb_true_iff in H as [Hwf Hh].
+  assert (Es : strip_negate (print_pattern neg al) = (neg, print_alt al)).
+  { unfold print_pattern. destruct neg; cbn [app].
+    - unfold strip_negate. replace c_sp_negate_char with ch_tilde by (vm_compute; reflexivity).
+      rewrite N.eqb_refl. reflexivity.
+    - apply head_ok_strip; exact Hh. }
+  split; [|rewrite Es; reflexivity].
+  unfold regex_string. rewrite Es. cbn [snd]. rewrite head_ok_body by exact Hh.
+  cbn [is_nil]. rewrite regex_of_simple_nonnil.
+  unfold regex_of_simple. rewrite skip_noop.
+  destruct tr_loop_syntax as (_ & _ & T).
+  pose proof (T al Hwf []) as E. rewrite app_nil_r in E. cbn [tr_loop] in E. rewrite app_nil_r in E.
+  rewrite E. reflexivity.
+Qed.
+
+Section Engine.
+  Variable engine : list N -> rx.
+  (* libc regcomp/regexec behave as Pat/Ere.v on every regex string inside that model *)
+  Hypothesis engine_is_ere : forall re, ere_compile re <> CUnsupported -> engine re = ere_engine re.
+
+  Theorem translate_correct : forall neg al st0 s,
+    wf_pattern al = true ->
+    (matches (fst (set_pattern engine st0 (print_pattern neg al) true)) s = true <-> den_pattern neg al s).
+  Proof.
+    intros neg al st0 s H.
+    destruct (regex_string_pattern neg al H) as [Er En].
+    rewrite (matches_simple_regex engine st0 _ _ s Er). rewrite En.
+    pose proof H as H'. unfold wf_pattern in H'. apply andb_true_iff in H' as [Hwf _].
+    pose proof (compile_wrapped al Hwf) as Ec.
+    rewrite engine_is_ere by (rewrite Ec; discriminate).
+    unfold ere_engine. rewrite Ec.
+    assert (Em : ere_exec (wrap (close_frame (fr_alt al f0))) s = true <-> den_alt al s).
+    { unfold wrap. rewrite ere_exec_anchored.
+      destruct denote_syntax as (_ & _ & D). rewrite D by reflexivity.
+      unfold aden. cbn [f_alts f0]. tauto. }
+    unfold den_pattern. destruct neg.
+    - rewrite xorb_true_l. rewrite negb_true_iff. rewrite <- Em.
+      destruct (ere_exec (wrap (close_frame (fr_alt al f0))) s); split; congruence.
+    - rewrite xorb_false_l. exact Em.
+  Qed.
+End Engine.
